@@ -3,7 +3,7 @@
 //! manifest timestamps set through the commit handler, plus planted objects of every class
 //! (unreferenced data / deletion / transaction / index objects, `_versions/.tmp*`, `*.manifest-<uuid>`
 //! staging files, unknown extensions, objects in the wrong directory, string-prefix look-alikes) at
-//! four ages, file mtimes set by `File::set_modified`; then the real `cleanup_with_policy` under the
+//! seven ages (incl. 7 days -/+ 2 h and exactly a manifest's time), file mtimes set by `File::set_modified`; then the real `cleanup_with_policy` under the
 //! whole policy table.  The set of deleted objects and RemovalStats must equal the model's.
 use crate::world::*;
 use hxlib::util::{catch, coq, Args, Rng, Sink, Stream};
@@ -21,7 +21,7 @@ pub struct BaseState {
     pub base: PathBuf,
     pub ts: Vec<u128>,                  // ts[k] = manifest time of version k+1
     pub origin: BTreeMap<String, usize>, // file -> version whose operation created it (1-based)
-    pub strays: Vec<(String, usize)>,   // planted file -> age level 0..3
+    pub strays: Vec<(String, usize)>,   // planted file -> age level 0..6
     pub manifests: Vec<ManInfo>,
     pub timeline: &'static str,
 }
@@ -41,12 +41,26 @@ pub fn timeline(name: &str, now0: u128, k: usize) -> u128 {
     }
 }
 
-const STRAY_UUID: [&str; 4] = [
+const STRAY_UUID: [&str; 7] = [
     "00000000-0000-4000-8000-000000000000",
     "00000000-0000-4000-8000-000000000001",
     "00000000-0000-4000-8000-000000000002",
     "00000000-0000-4000-8000-000000000003",
+    "00000000-0000-4000-8000-000000000004",
+    "00000000-0000-4000-8000-000000000005",
+    "00000000-0000-4000-8000-000000000006",
 ];
+
+/// the removable kinds only, for the boundary ages (7 days -/+ 2 hours, exactly the time of version 5)
+fn stray_core(l: usize) -> Vec<String> {
+    vec![
+        format!("data/stray-L{l}.lance"),
+        format!("_deletions/9-9-{l}.arrow"),
+        format!("_transactions/9-stray{l}.txn"),
+        format!("_indices/{}/index.idx", STRAY_UUID[l]),
+        format!("_versions/.tmp_5.manifest_{l}"),
+    ]
+}
 
 fn stray_names(l: usize) -> Vec<String> {
     vec![
@@ -127,6 +141,12 @@ pub async fn build_base(tl: &'static str, now0: u128) -> BaseState {
             strays.push((n, l));
         }
     }
+    for l in 4..7 {
+        for n in stray_core(l) {
+            plant(&base, &n, 11 + l, now0);
+            strays.push((n, l));
+        }
+    }
     BaseState { _dir: dir, base, ts, origin, strays, manifests, timeline: tl }
 }
 
@@ -138,7 +158,7 @@ fn mtime_plan(b: &BaseState, now0: u128, delta: i64) -> Vec<(String, u128)> {
         let t = if delta < 0 { t - SEC } else if delta > 0 { t + SEC } else { t };
         out.push((f.clone(), t));
     }
-    let levels = [b.ts[0] - 10 * DAY, b.ts[3] + (b.ts[4] - b.ts[3]) / 2, now0 - DAY, now0 - 10 * MIN];
+    let levels = [b.ts[0] - 10 * DAY, b.ts[3] + (b.ts[4] - b.ts[3]) / 2, now0 - DAY, now0 - 10 * MIN, now0 - 7 * DAY - 2 * HOUR, now0 - 7 * DAY + 2 * HOUR, b.ts[4]];
     for (f, l) in &b.strays {
         out.push((f.clone(), levels[*l]));
     }
